@@ -1755,7 +1755,9 @@ static void build_expr(WorkList *list, ASTNode *expr, Environment *env) {
                 emit_formatted(list, "({ DynArray* _arr = dyn_array_new(%s); ", elem_type_str);
                 emit_literal(list, "int64_t _size = ");
                 build_expr(list, size_arg, env);
-                emit_literal(list, "; for (int64_t _i = 0; _i < _size; _i++) { ");
+                /* docs/STDLIB.md: "The size must be non-negative. I will cause an error if you provide a negative size." */
+                emit_literal(list, "; if (_size < 0) { fprintf(stderr, \"Runtime Error: array_new() size must be non-negative\\n\"); exit(1); }");
+                emit_literal(list, " for (int64_t _i = 0; _i < _size; _i++) { ");
                 
                 /* Generate appropriate push call based on type */
                 if (elem_type == TYPE_STRUCT && struct_name) {
